@@ -78,19 +78,47 @@ def _run_query(q):
     raise ValueError(k)
 
 
+QUERY_TIMEOUT_S = 5.0      # a query that does not return under some zone is reported as such (result "EXC:Timeout")
+MAX_TIMEOUTS = 3           # after that many the worker stops evaluating (results "SKIPPED") so that a batch stays bounded
+
+
+class _Timeout(BaseException):
+    pass
+
+
+def _on_alarm(signum, frame):
+    raise _Timeout()
+
+
 def run_query(q):
+    import signal
+    signal.signal(signal.SIGALRM, _on_alarm)
+    signal.setitimer(signal.ITIMER_REAL, QUERY_TIMEOUT_S)
     try:
         return _run_query(q)
+    except _Timeout:
+        return "EXC:Timeout: no result within %g s" % QUERY_TIMEOUT_S
     except RecursionError:
         return "EXC:RecursionError"
     except Exception as e:  # the exception text is part of the result: it must not depend on the zone either
         return "EXC:%s:%s" % (type(e).__name__, str(e)[:200])
+    finally:
+        signal.setitimer(signal.ITIMER_REAL, 0)
 
 
 def worker():
     queries = common.unjson(json.load(sys.stdin))
     offs = [time.localtime(1610712000).tm_gmtoff, time.localtime(1626350400).tm_gmtoff]
-    res = [run_query(q) for q in queries]
+    res = []
+    timeouts = 0
+    for q in queries:
+        if timeouts >= MAX_TIMEOUTS:
+            res.append("SKIPPED")
+            continue
+        r = run_query(q)
+        if r.startswith("EXC:Timeout"):
+            timeouts += 1
+        res.append(r)
     sys.stdout.write(json.dumps({"tz_env": os.environ.get("TZ"), "offsets": offs, "results": res}))
     sys.stdout.flush()
 
@@ -113,7 +141,11 @@ def run_in_zones(queries):
     outs = {}
 
     def pump(z):
-        outs[z] = procs[z].communicate(payload.encode("utf-8"))
+        try:
+            outs[z] = procs[z].communicate(payload.encode("utf-8"), timeout=QUERY_TIMEOUT_S * (MAX_TIMEOUTS + 1) + 120)
+        except subprocess.TimeoutExpired:
+            procs[z].kill()
+            outs[z] = procs[z].communicate()
 
     ths = [threading.Thread(target=pump, args=(z,)) for z in ZONES]
     for t in ths:
@@ -161,6 +193,9 @@ def evaluate(run, queries, count=True):
         if count:
             run.case(qkey(q))
         vals = {z: res[z][i] for z in ZONES}
+        if any(v == "SKIPPED" for v in vals.values()):
+            run.c18_skipped = getattr(run, "c18_skipped", 0) + 1     # a worker gave up after repeated timeouts
+            continue
         base = vals["UTC"]
         if base.startswith("EXC:"):
             nexc += 1
@@ -401,7 +436,8 @@ def explore(run):
         nb += 1
         if last < 2.0 and batch < 3000:
             batch = int(batch * 1.5)
-    run.note("%d random batches; %d queries raised (the same exception in every zone unless reported)" % (nb, nexc))
+    run.note("%d random batches; %d queries raised (the same exception in every zone unless reported); %d queries not compared "
+             "because a worker stopped after %d timeouts" % (nb, nexc, getattr(run, "c18_skipped", 0), MAX_TIMEOUTS))
 
 
 def replay(run, inp):
